@@ -322,6 +322,20 @@ fn mode_struct(seed: u64, n: u64) {
             struct_case(format!("s{}-mem{}-{}", seed, j, k), "memory.grow-to-MAX_NUM_PAGES", &m);
         }
     }
+    // natural alignment: every memory instruction x alignment immediates; accepted iff 2^align <= access width
+    for (b, w, store, is64) in MEMOPS {
+        for al in [0u32, 1, 2, 3, 4, 31] {
+            let mut body = vec![Op::I32Const(16)];
+            if *store { body.push(if *is64 { Op::I64Const(1) } else { Op::I32Const(1) }); }
+            body.push(Op::Mem(*b, 0, al));
+            if !*store { body.push(Op::Plain(0x1a)); }
+            body.push(Op::End);
+            let m = Module { types: vec![Sig { params: vec![], result: None }], funcs: vec![Func { ty: 0, locals: vec![], body, rle: None }],
+                             mem: Some((1, None)), ..Default::default() };
+            let ok = al < 32 && (1u64 << al) <= *w;
+            struct_case(format!("s{}-al{:02x}-{}", seed, b, al), &format!("alignment:op{:#04x}-width{}-align{}#{}", b, w, al, if ok { "ok" } else { "bad" }), &m);
+        }
+    }
     for i in 0..n {
         let mut r = Rng::new(seed.wrapping_mul(7_000_003).wrapping_add(i));
         let base = gen_module(&mut r, &mut st);
